@@ -96,13 +96,24 @@ Proof. split; vm_compute; reflexivity. Qed.
     under the executable syntactic guard [wherein1_shape] (the conditions of steps 1-4 for both scopes; no unresolved column
     in the sub-query; K-C02-8 and K-C02-5 across scopes in executable form).  NOT yet proved: that [colshape] implies
     [wherein1_shape] (checked on 16 instances), INSERT column lists, nested WHERE. *)
-From SV Require Import Tree.LemmaB5a.
+From SV Require Import Tree.LemmaB5a Tree.LemmaB5a2 Tree.LemmaB5a3.
 
 Theorem c02_exact_on_select_where_in_partial : forall noise e s,
   noise_ok noise = true -> env_ok e = true -> stmt_ok s = true -> wherein1_shape s = true ->
   script_pairs e false [] [r_stmt noise s] = spec_pairs (e_cfg e) s.
 Proof. exact lemma_B_wherein1_restricted. Qed.
 Print Assumptions c02_exact_on_select_where_in_partial.
+
+(** ... and as an instance of [lemma_B_statement]: under [colshape] on the purely syntactic fragment
+    [sel_wherein1c_syntactic] (INSERT with or without column list / CTAS / VIEW over SELECT from distinct base tables WHERE c IN
+    (SELECT from distinct base tables), the sub-query's unqualified references over one table only); all other conditions
+    are derived from [colshape] (Tree/LemmaB5a2.v) *)
+Theorem c02_exact_on_select_where_in : forall noise e s,
+  noise_ok noise = true -> env_ok e = true -> stmt_ok s = true -> sshape s = true -> colshape s = true ->
+  sel_wherein1c_syntactic s = true ->
+  script_pairs e false [] [r_stmt noise s] = spec_pairs (e_cfg e) s.
+Proof. exact lemma_B_wherein1c_colshape. Qed.
+Print Assumptions c02_exact_on_select_where_in.
 
 (** * Lemma B, step 5c (partial): a derived table (Tree/LemmaB5cPaths.v, Tree/LemmaB5c.v, 1 900 lines).
     Part P is generalised from bipartite flows to any ranked (layered, acyclic) flow set: the reported pairs are the ends of
@@ -126,3 +137,19 @@ Print Assumptions c02_exact_on_one_derived_table_partial.
 Theorem c02_lemma_B_statement_needs_distinct_subquery_text : ~ lemma_B_statement.
 Proof. exact lemma_B_statement_refuted_5c. Qed.
 Print Assumptions c02_lemma_B_statement_needs_distinct_subquery_text.
+
+(** * Lemma B, step 5b (partial): UNION of two plain SELECTs (Tree/LemmaB5b*.v, 6 files).
+    INSERT with or without column list / CTAS / VIEW over q1 UNION [ALL] q2, each branch a SELECT from any number of
+    distinct base tables (joins, comma joins, qualified / unqualified / unresolved references, stars, item aliases), any
+    trivia: the first branch creates the target columns, the second is matched to them by position, and the reported pairs
+    are those of the specification's [zip_union].  Extra hypothesis [union_alias_coherent] (a table read in both branches
+    carries the same alias in both) is a limit of the proof technique, not of the statement: exhaustive enumeration of 52 400
+    union statements (coq/extra/LemmaB5bEnum.v) finds no failing instance inside [colshape]. *)
+From SV Require Import Tree.LemmaB5b.
+
+Theorem c02_exact_on_union_partial : forall noise e s,
+  noise_ok noise = true -> env_ok e = true -> stmt_ok s = true -> sshape s = true -> colshape s = true ->
+  sel_union_syntactic s = true -> union_alias_coherent s = true ->
+  script_pairs e false [] [r_stmt noise s] = spec_pairs (e_cfg e) s.
+Proof. exact lemma_B_union_partial. Qed.
+Print Assumptions c02_exact_on_union_partial.
